@@ -5,7 +5,6 @@ import (
 	"os"
 
 	"safecheck/relang"
-
 )
 
 // runC18 first applies the rules written for the current spelling; when they do not recognise the code the
